@@ -995,6 +995,51 @@ func ruleR17_1(w *World, r *Report) {
 		fmt.Sprintf("all %d close call(s) are dominated by a receive of a copier's completion report (%d receive site(s))", ncl, len(recvs)), bad,
 		"closes", ncl, "receives", len(recvs))
 
+	// R17.6: once the first copier has reported, neither close may wait for the second report — the second
+	// copier may be parked in a Write/Read that only that very close interrupts
+	{
+		isRecv := map[ssa.Instruction]bool{}
+		for _, rc := range recvs {
+			isRecv[rc] = true
+		}
+		var first []ssa.Instruction
+		for _, rc := range recvs {
+			dominated := false
+			for _, o := range recvs {
+				if o != rc && instrDominates(o, rc) {
+					dominated = true
+				}
+			}
+			if !dominated {
+				first = append(first, rc)
+			}
+		}
+		bad6 := ""
+		n6 := 0
+		for _, c := range callsIn(fn) {
+			t := closeTarget(w, c)
+			if t == nil || len(paramsOf(w, fn, t)) == 0 {
+				continue
+			}
+			if _, isDefer := c.(*ssa.Defer); isDefer {
+				continue
+			}
+			n6++
+			free := false
+			for _, rc := range first {
+				if canReach(fn, rc, func(in ssa.Instruction) bool { return isRecv[in] }, func(in ssa.Instruction) bool { return in == c.(ssa.Instruction) }) != nil {
+					free = true
+				}
+			}
+			if !free {
+				bad6 = fmt.Sprintf("%s: this close happens only after a second completion report was received: the other copier can be parked in a Write (peer stopped reading) or a Read that only this close interrupts, so PipeData never returns and the connection is never closed", w.Pos(c.Pos()))
+			}
+		}
+		if len(first) > 0 {
+			r.Check(bad6 == "", "R17.6", "func:streams.PipeData|closes-do-not-wait-for-second-report", pos, fmt.Sprintf("%d close call(s), each reachable from the first completion receive without a further receive", n6), bad6)
+		}
+	}
+
 	// copiers: EOF only on err == nil of the copy, and exactly one report per path after the copy
 	seen := map[*ssa.Function]bool{}
 	var work []*ssa.Function
